@@ -170,6 +170,15 @@ def _restart_case(seed):
             scripts.append(namespace_ops(w, rng))
             if rng.random() < 0.5:
                 w.deliver("inbox", rng.choice([1, 2]), unseen=rng.random() < 0.7)
+            if rng.random() < 0.5:
+                # the message with the highest UID goes away right before the shutdown: UIDNEXT is then more than the last
+                # UID + 1, the one thing about a mailbox that cannot be recomputed from its messages
+                box = rng.choice(["inbox", "work"])
+                w.cmd("P", f"p SELECT {box}")
+                w.cmd("P", "p STORE * +FLAGS.SILENT (\\Deleted)")
+                w.cmd("P", "p EXPUNGE")
+                w.cmd("P", "p UNSELECT")
+                scripts[-1].append(f"SELECT {box}; STORE * +FLAGS.SILENT (\\Deleted); EXPUNGE; UNSELECT")
             before = observe(w)
             names = list(w.sessions)
             w.restart()
